@@ -20,11 +20,10 @@ from __future__ import annotations
 
 import copy
 import io
-import math
 import pickle
 import random
 import zlib
-from dataclasses import dataclass, field
+from dataclasses import dataclass
 from typing import Callable, Optional
 
 import torch
@@ -303,17 +302,6 @@ class SVGPModel(gpytorch.models.ApproximateGP):
         return MultivariateNormal(self.mean_module(x), self.covar_module(x))
 
 
-class AdditiveGridSVGPModel(gpytorch.models.ApproximateGP):
-    def __init__(self, make_strategy, mean_module, covar_module, likelihood):
-        super().__init__(make_strategy(self))
-        self.mean_module = mean_module
-        self.covar_module = covar_module
-        self.likelihood = likelihood
-
-    def forward(self, x):
-        return MultivariateNormal(self.mean_module(x), self.covar_module(x))
-
-
 class NNSVGPModel(gpytorch.models.ApproximateGP):
     def __init__(self, make_strategy, mean_module, covar_module, likelihood):
         super().__init__(make_strategy(self))
@@ -324,7 +312,7 @@ class NNSVGPModel(gpytorch.models.ApproximateGP):
     def forward(self, x):
         return MultivariateNormal(self.mean_module(x), self.covar_module(x))
 
-    def __call__(self, x, prior=False, **kwargs):
+    def __call__(self, x, prior=False, **kwargs):  # as in the VNNGP example of the documentation
         if x is not None and x.dim() == 1:
             x = x.unsqueeze(-1)
         return self.variational_strategy(x=x, prior=False, **kwargs)
@@ -1087,7 +1075,7 @@ def _build_svgp(arch, v, data):
     name = arch["strategy"]
     t = arch.get("t")
     nl = (arch["latents"] if name == "LMC" else t) if name in ("LMC", "IndependentMultitask") else None
-    bs = [nl] if nl else ([arch["d"]] if name == "AdditiveGrid" and False else [])
+    bs = [nl] if nl else []
     a = dict(arch, batch=bs, ad=False)
     lik = _svgp_likelihood(arch["lik"], v, D, t)
     holder = {"X": data["train_inputs"][0]}
@@ -1096,7 +1084,7 @@ def _build_svgp(arch, v, data):
     kw, dk = stationary_kwargs(dict(a, ard=a.get("ard") and name != "AdditiveGrid"), v, D)
     base = K.RBFKernel(**kw) if arch["leaf"] == "RBF" else K.MaternKernel(nu=2.5, **kw)
     covar = maybe_scale(dict(a, scale=True), D, base)
-    cls = {"AdditiveGrid": AdditiveGridSVGPModel, "NearestNeighbor": NNSVGPModel}.get(name, SVGPModel)
+    cls = NNSVGPModel if name == "NearestNeighbor" else SVGPModel
     model = cls(make, mean, covar, lik)
     # (the library's lazy initialisation of a *batched* TrilNatural distribution under autograd raises a view/in-place RuntimeError in
     # training mode - not a persistence matter: those are always initialised explicitly)
@@ -1341,7 +1329,6 @@ def history_ops(p, kind):
 # ---------------------------------------------------------------------------------------------------
 # the check
 # ---------------------------------------------------------------------------------------------------
-MECHANISMS = ("state_dict", "pickle", "deepcopy")
 NUMERIC = (NotPSDError, NanError)
 CACHE_TOL = 1e-8  # first prediction after the save point when one side uses caches of the history and the other rebuilds them
 
